@@ -109,4 +109,31 @@ META: dict[str, dict[str, str]] = {
     },
 }
 
+
+# Third round (DESIGN.md 9.9): clauses added after the third set of independently seeded changes and the
+# clean-tree reports that came with them.  Appended to the level texts.
+ROUND3: dict[str, str] = {
+    "C01": "Third round: a family of mass symbols removed from the kinematic variables is not put back by a later store (the store is guarded by the family's domain or by membership of the symbol itself); lookups into the symbol-keyed mappings never use a str (R-KEYTYPE).",
+    "C02": "Third round: itertools.groupby only over input sorted by the same key; the group key keeps which state carries which projection (recorded known finding K4: it does not, identical spinful particles are summed coherently across exchanged projections); the A_{...} component of a chain accumulates over its identical-particle permutations (F19, repaired).",
+    "C03": "Third round: daughter order in coefficient names never depends on helicities; the strings that decide coefficient sharing and the parity flip do not depend on display flags (recorded known finding K8: insert_child_helicities / insert_ls_combinations).",
+    "C04": "Third round: the pool handed to the recursion is the one boosted in the same activation on every path (no memo across parent chains); the axis-angle wiring of C05 (every D bound to the outer helicity symbol and its own summation index) is shared. Two reproduced deviations outside the decided clauses are listed under not_decided (half-integer double cover, DPD with two topologies).",
+    "C05": "Third round: no helicity-suffixed symbol through sp.symbols (F17, repaired); the outer helicity symbol handed to both rotation kinds is never None; Wigner angle table read through local helpers; recorded known findings K6 (rest-frame boost of massless states, R-RESTFRAME) and K7 (restricted summation range for massless states, R-FULLRANGE).",
+    "C06": "Third round: no memoised function keyed by transitions / states / particles (equality ignores name, pid, latex) returns an object carrying those labels (R-CACHEKEY).",
+    "C07": "Third round: own-pool clause of R-FRAME (see C04); producers are found through named intermediates of update().",
+    "C09": "Third round: closed forms for a concrete number of channels are decided entry by entry on explicit symbol matrices (rational-function normal form, determinant / adjugate) against T(1-iK)=K; the pole normalisation of the energy-dependent width is sign-insensitive (recorded known finding K5: it is not for FormFactor and the default PhaseSpaceFactor - sub-threshold poles give complex K); PhaseSpaceFactorAbs itself is.",
+    "C10": "Third round: helpers that return several matrices are followed (F = T K^-1 P is rejected: K^-1 does not exist for fewer poles than channels); every barrier factor inside EnergyDependentWidth depends on the caller's radius and L (term level).",
+    "C11": "Third round: every return path of ComplexSqrt._numpycode prints the one definition.",
+    "C12": "Third round: no lineshape is evaluated at a point by structural substitution of a parameter that callers bind to compound expressions (R-STRUCTSUBS).",
+    "C13": "Third round: assign(TwoBodyDecay) writes exactly the given key.",
+    "C14": "Third round: the field getter of the hooks yields a tuple for every arity (operator.attrgetter with one name does not); PoolSum._eval_subs returns (shared with C18).",
+    "C15": "Third round: same getter-arity clause for __getnewargs__; UnevaluatedExpression.__getnewargs_ex__ forwards name.",
+    "C16": "Third round: no unbounded wait on the state of a file on the cache path (R-NOWAIT); keys assembled from parts are injective only if every part is.",
+    "C17": "Third round: helpers of rename_symbols are inlined; the universe of renameable symbols includes the parameter keys (F18, repaired).",
+    "C18": "Third round: binding-aware substitution also where code outside PoolSum expands a sum; _eval_subs answers self only for bound symbols and otherwise defers to SymPy (value pools are substituted too); free_symbols is not memoised on the instance.",
+    "C19": "Third round: an angle documented as acos(c) is not computed with single-argument atan.",
+    "C20": "Third round: no sequential multi-pair subs() with arbitrary replacement values in kinematics/phasespace.py; fallbacks guarded by `is None` on term values are decided.",
+}
+for _pid, _text in ROUND3.items():
+    META[_pid]["level"] += " " + _text
+
 NOT_APPLICABLE: dict[str, str] = {}
